@@ -159,6 +159,7 @@ func VF_C06_a() {
 	exec := func(_ *state.BlockState, blk *types.Block) error {
 		// durable effect of a successful executeBlock: the state commit (one bulk, marker last)
 		w.commitState(u.skv, blk)
+		vfWriteReceipts(u.cs, blk)
 		u.cs.sdb.SetRoot(blk.GetHeader().GetBlocksRootHash())
 		u.cs.Update(blk)
 		return nil
@@ -228,10 +229,16 @@ func VF_C06_a() {
 		vf.Reach("C06.a.old")
 		vf.Assert(!markerLeft, "C06.a")
 		vfCheckChain("C06.a", cs2, kv2, u.oldPath())
+		for _, blk := range u.oldPath() {
+			vfCheckReceipts("C06.a", cs2, blk)
+		}
 	} else {
 		vf.Reach("C06.a.new")
 		vf.Assert(bytes.Equal(best.GetHash(), top.Hash), "C06.a")
 		vfCheckChain("C06.a", cs2, kv2, u.newPath())
+		for _, blk := range u.newPath() {
+			vfCheckReceipts("C06.a", cs2, blk)
+		}
 		u2 := *u
 		u2.cs = cs2
 		vfCheckAbandoned("C06.a", &u2)
@@ -378,6 +385,7 @@ func VF_C06_c() {
 	run := func(cs *ChainService, skv db.DB, tip *types.Block) error {
 		_, err := vfReorgWith(cs, tip, func(_ *state.BlockState, blk *types.Block) error {
 			w.commitState(skv, blk)
+			vfWriteReceipts(cs, blk)
 			cs.sdb.SetRoot(blk.GetHeader().GetBlocksRootHash())
 			cs.Update(blk)
 			return nil
